@@ -78,3 +78,42 @@ func zzC02ServerOptionalParams() {
 	_ = err
 	vReach("end")
 }
+
+// sampling/createMessage served through the basic CreateMessageHandler (the request is down-converted): documents a
+// peer may send — no messages, one message, a message that is null, a message with several content blocks — are
+// served or refused with an error; the conversion never panics (defect D31, fixed).
+type zzRawSampling struct {
+	Messages  []*SamplingMessageV2 `json:"messages"`
+	MaxTokens int64                `json:"maxTokens"`
+}
+
+func zzC02ClientSamplingShapes() {
+	ran := 0
+	c := NewClient(&Implementation{Name: "c", Version: "v"}, &ClientOptions{
+		CreateMessageHandler: func(context.Context, *CreateMessageRequest) (*CreateMessageResult, error) {
+			ran++
+			return &CreateMessageResult{Content: &TextContent{Text: "ok"}, Role: "assistant", Model: "m"}, nil
+		},
+	})
+	cs := &ClientSession{client: c}
+	doc := &CreateMessageWithToolsParams{MaxTokens: 10}
+	one := &SamplingMessageV2{Role: "user", Content: []Content{&TextContent{Text: "hi"}}}
+	kind := vChoice("messages", 4)
+	switch kind {
+	case 1:
+		doc.Messages = []*SamplingMessageV2{one}
+	case 2:
+		doc.Messages = []*SamplingMessageV2{one, nil} // "messages":[{...},null]
+	case 3:
+		doc.Messages = []*SamplingMessageV2{{Role: "user", Content: []Content{&TextContent{Text: "a"}, &TextContent{Text: "b"}}}}
+	}
+	_, err := c.createMessage(context.Background(), &CreateMessageWithToolsRequest{Session: cs, Params: doc})
+	if kind >= 2 {
+		vAssert(err != nil && ran == 0, "C02.sampling.unusable-message-refused-without-running-the-handler")
+		vReach("refused")
+	} else {
+		vAssert(err == nil && ran == 1, "C02.sampling.usable-request-served")
+		vReach("served")
+	}
+	vReach("end")
+}
